@@ -1,7 +1,7 @@
 \* exhaustive, thorough tier: every triple of the three-tier sub-alphabet (plain with PDB, do-not-disrupt, critical), with a termination grace period
 CONSTANTS Pods = {"p1", "p2", "p3"}  Archetypes <- ArchDl  TGPs <- BoolT  TGP = 3
   MaxNow = 4  MaxFaults = 0  MaxRestarts = 0  MaxDlChanges = 0  MaxLen = 1000  MaxSpont = 99
-  EarlierMode = "earlier"  GateTiers = TRUE  MinGrace = 1  DndMode = "honour"  ThresholdSlack = 0  DropMode = "keep"
+  EarlierMode = "earlier"  GateTiers = TRUE  MinGrace = 1  DndMode = "honour"  ThresholdSlack = 0  DropMode = "keep"  SplitMode = "waiting"
 SPECIFICATION Spec
 VIEW view
 INVARIANTS TypeOK Inv_C10_Guards
